@@ -2,6 +2,7 @@ package sym
 
 import (
 	"fmt"
+	"time"
 	"go/token"
 	"go/types"
 	"reflect"
@@ -51,6 +52,7 @@ type Engine struct {
 	pdomCache  map[*ssa.Function]map[*ssa.BasicBlock]*ssa.BasicBlock
 	rpoCache   map[*ssa.Function]map[*ssa.BasicBlock]int
 	MaxSteps   int
+	Deadline   time.Time
 	MaxVisits  int
 	NoMerge    bool
 	EagerFeas  bool
